@@ -26,7 +26,7 @@ func TestC08Table(t *testing.T) {
 	st.Extra["exhaustive_part"] = map[string]interface{}{"decision_table_rows": rows, "exhaustive": f == nil}
 	st.mu.Unlock()
 	if f != nil && !isKnown("C08", f.Signature) {
-		path := saveReplay("C08", C08TableCase{Table: true}, f)
+		path := saveReplay("C08", "C08", C08TableCase{Table: true}, f)
 		line := fmt.Sprintf("VIOLATION property=C08 replay=%s", path)
 		fmt.Println(line)
 		st.mu.Lock()
